@@ -101,10 +101,21 @@ def _boolcast(x, like):
 def _zero_cmp(e):
     """E5: for unsigned X: 0 < X, 1 <= X -> 0 != X ; 0 >= X, 1 > X -> 0 == X.   E6: 0 != (a & b) -> (a & b) as a bool, 0 == (a & b) -> !(a & b)"""
     l, r, op = e["l"], e["r"], e["op"]
-    if _lit(l) is None and _lit(r) is not None:
+
+    def _klit(x):
+        # a literal, or a named integer constant whose value is 0 or 1 (MIN_NUM_STD_DEV = 1): `x < MIN` is `x < 1`
+        v0 = _lit(x)
+        if v0 is not None:
+            return v0
+        sx = _strip(x)
+        if isinstance(sx, dict) and sx.get("k") in ("Ref", "Member") and isinstance(sx.get("v"), int) and not isinstance(sx.get("v"), bool) \
+                and sx.get("v") in (0, 1) and (sx.get("dk") in ("global", "enum") or sx.get("isstatic")) and (_unsigned(r if x is l else l)):
+            return sx["v"]
+        return None
+    if _klit(l) is None and _klit(r) is not None:
         l, r, op = r, l, FLIP[op]
-    v = _lit(l)
-    if v is None or _lit(r) is not None:
+    v = _klit(l)
+    if v is None or _klit(r) is not None:
         return e
     x = r
     new = None
@@ -114,8 +125,8 @@ def _zero_cmp(e):
         elif (v == 0 and op == ">=") or (v == 1 and op == ">"):
             new = "=="
     if new is not None:
-        zero = dict(_strip(l))
-        zero["v"], zero["lit"] = 0, "0"
+        l0 = _strip(l)
+        zero = {"k": "Int", "v": 0, "lit": "0", "t": l0.get("t"), "sz": l0.get("sz"), "loc": l0.get("loc")}
         e = dict(e)
         e["l"], e["r"], e["op"] = zero, x, new
         v, op = 0, new
@@ -1088,7 +1099,7 @@ def norm_function(fn):
                 import astu
                 if tail and astu.always_throws({"k": "Block", "s": tail}) and not any(isinstance(x, dict) and x.get("k") == "Decl" for x in tail):
                     neg = _neg(s0["c"])
-                    if isinstance(neg, dict) and neg.get("k") == "Bin":
+                    if isinstance(neg, dict) and neg.get("k") in ("Bin", "Un"):
                         neg = norm_expr(neg)
                     body["s"] = ss[:i] + [{"k": "If", "c": neg, "t": {"k": "Block", "s": tail, "loc": tail[0].get("loc")}, "e": None, "loc": s0.get("loc"), "synth": True}]
                     break
